@@ -22,6 +22,8 @@ pub mod c18;
 pub mod c19;
 pub mod c20;
 pub mod hard;
+pub mod history;
+pub mod iterproto;
 pub mod mc;
 pub mod san;
 
